@@ -63,6 +63,7 @@ type Ctx struct {
 	pit       []pitfall
 	allObs    map[string][]Obligation
 	grd       []guard
+	sib       []sibUse
 	funcLines map[string][]funcSpan
 	reach     map[string]map[string]bool
 	deadNew   map[*types.Func]bool
@@ -119,6 +120,7 @@ func Load(o LoadOpts) (*Ctx, error) {
 	var prev *Ctx
 	unembedded := false
 	canonDone := false
+	funcRenames = map[string]string{}
 	for round := 1; ; round++ {
 		c, err := loadOnce(o)
 		if err != nil {
@@ -130,6 +132,11 @@ func Load(o LoadOpts) (*Ctx, error) {
 				return prev, nil
 			}
 			return nil, err
+		}
+		if round == 1 && !o.NoInline {
+			// pinned functions under a new name, before anything is taken for a new helper (funcrename.go)
+			log = append(log, computeFuncRenames(c.AllPkgs)...)
+			c.deadNew = nil
 		}
 		c.InlineLog = log
 		if o.NoInline || round > 8 {
@@ -445,6 +452,16 @@ func (c *Ctx) Func(pkg, recv, name string) (*ssa.Function, error) {
 	fn, err := c.funcExact(pkg, recv, name)
 	if err == nil {
 		return fn, nil
+	}
+	// the pinned function under a new name (funcrename.go)
+	for nk, ok := range funcRenames {
+		if ok == pkg+"\t"+recv+"\t"+name {
+			if f := strings.Split(nk, "\t"); len(f) == 3 {
+				if fn2, err2 := c.funcExact(f[0], f[1], f[2]); err2 == nil {
+					return fn2, nil
+				}
+			}
+		}
 	}
 	// An unexported anchor of the pinned tree that is gone: renamed, merged with a
 	// sibling, or turned into a method. Its successor is the new function of the same
